@@ -64,36 +64,42 @@ CHECKS["C03"] = dict(
     technique="TLA+ state machine of the solver loop (Solver.tla, TLC) + sweep-level trace validation (TraceSolver.tla) + black-box relations (TraceSolve.tla)",
     text="Solver.tla models the fixed-point loop (sweep / returned / RuntimeError / ValueError) and TLC checks ReturnOnlyConverged, Terminates, NoConvOnlyLate for maxiter 0..6. "
          "The real loop is recorded sweep by sweep through run-time wrappers of System._solve/_fwd_prop/_back_prop; TLC classifies every sweep with the exact stopping rule "
-         "(numpy.allclose stated over exact decimals) and requires the recorded run to be a behaviour of Solver.tla ending the observed way (never an earlier iterate, never later, "
-         "returned vectors = last pre-sweep iterate = table). Black-box: finite, every law reproduced within the requested tolerance, passive elements neither invert nor amplify, only "
+         "(numpy.allclose stated over exact decimals) and requires the recorded run to be a behaviour of Solver.tla ending the observed way (never an earlier iterate, a RuntimeError only when "
+         "no sweep within maxiter met the requested tolerance, returned vectors = last pre-sweep iterate = table; a run that goes on after a converged sweep is recorded as a note). Black-box: finite, every law reproduced within the requested tolerance, passive elements neither invert nor amplify, only "
          "RuntimeError/ValueError; completeness on designed steady states with modest drops; overloaded systems raise or return such a state.",
-    note="completeness is decided for designed steady states (drops <= 6 % per element, <= 25 % per path) only; wrappers depend on the private method names (degrade to black-box if absent)",
+    note="completeness is decided for designed steady states (drops <= 6 % per element, <= 25 % per path) only; the wrappers are installed only if the three private methods exist, pass "
+         "arguments through unchanged and guard every observation (otherwise the black-box clauses alone decide)",
     design="DESIGN.md 7 (C03)")
 
 TWIN_NOTE = "trusts the projection / canonicalisation of reports (row order, node numbering and sibling order removed, nothing else) and the exact-class tolerance 1e-9"
 CHECKS.update({
-    "C12": dict(technique="trace validation by TLC (Twin.tla): projected state and reports of from_file(save(S)) against S; version gate relation",
+    "C12": dict(technique="trace validation by TLC: the written document as a relation to the abstract state (TraceReports!SaveDocOK) + projected state and reports of from_file(save(S)) "
+                          "against S (Twin.tla); version gate relation",
                 text="For numeric instantiations of TLC-generated structures (tables, limits, rails, groups, phases, mux, several sources, both rectifier modes) and a showcase with every parameter of "
                      "every kind non-default and default, TLC compares the projected abstract state of the reloaded system with the original (component payloads, ordered mux inputs, rails, groups, "
-                     "phase tables) and the solve/rail_rep/params/limits/phases reports as row sets; documents stamped with versions around the installed one must be refused iff newer.",
+                     "phase tables) and the solve/rail_rep/params/limits/phases reports as row sets; the document itself must hold exactly the components with kind, every parameter, limits, parent (mux inputs "
+                     "in priority order), rail, group, phase configuration and the phases in declared order (an error shared by save() and from_file() is invisible to the round trip); documents stamped "
+                     "with versions around the installed one must be refused iff newer. Systems: generated, showcase, TLC edit histories, hand-built scenarios and edit histories.",
                 note=TWIN_NOTE + "; limits compared on applicable keys", design="DESIGN.md 7 (C12)"),
     "C16": dict(technique="TLA+ edit model (SysTree, TLC) + trace validation of replayed histories (TraceEdit.tla) + report equality against a freshly built system (Twin.tla) + "
-                          "params()/limits()/phases()/tree() as relations to the abstract state (TraceReports.tla)",
+                          "params()/limits()/phases()/tree()/save() as relations to the abstract state (TraceReports.tla)",
                 text="Every accepted edit of TLC-generated histories must leave exactly the state the documented effect of the edit yields (C16.Structure, judged with the SysTree actions); at the end of "
                      "every simulated history and in every state of the bounded edit graph all reports must succeed, list exactly the live components, and equal the reports of a system built from "
                      "scratch from the projected state in canonical and in randomly permuted order; params(limits=True), limits(), phases() and tree() must show exactly the "
-                     "configured parameters (tables as 'interp'), non-default applicable limits, per-phase values and links (ParamsOK, LimitsOK, PhasesOK, TreeOK). Histories: general, mux-focused, "
-                     "delete-then-regrow, with analyses in the middle, and the repository's own test-suite.", note=TWIN_NOTE, design="DESIGN.md 7 (C16), 15.3a"),
+                     "configured parameters (tables as 'interp'), non-default applicable limits, per-phase values and links (ParamsOK, LimitsOK, PhasesOK, TreeOK), the saved document exactly the system "
+                     "(SaveDocOK). Histories: general, mux-focused, delete-then-regrow, with analyses in the middle, hand-built edit histories, and the repository's own test-suite.", note=TWIN_NOTE, design="DESIGN.md 7 (C16), 15.3a"),
     "C17": dict(technique="TLA+ state machine of batt_life (Batt.tla, TLC) + fault-injected trace validation (TraceBatt.tla) + read-only clauses on recorded analysis calls (TraceEdit.tla, Twin.tla)",
                 text="BattRestored is an invariant of Batt.tla (every terminal state carries the user's source parameters). The real batt_life is run with a failure injected at the k-th probe / "
                      "deplete / solver call and on normal return; TLC requires the battery Source to be unchanged afterwards. Random interleavings of all eleven analyses (argument variety) are "
                      "recorded: projected state, deep digest of all payloads and argument objects must be unchanged, solve() before = after = repeated, exactly.",
                 note="fault points: k in 1..4 per callback kind; deep digest covers node payloads, registries, edges", design="DESIGN.md 7 (C17)", category="model_checking"),
-    "C18": dict(technique="TLA+ state machine of batt_life (Batt.tla, TLC) + trace validation of every callback and solver call (TraceBatt.tla)",
+    "C18": dict(technique="TLA+ state machine of batt_life (Batt.tla, TLC) + trace validation of every callback of recorded runs, solver calls as internal steps (TraceBatt.tla)",
                 text="PhaseCycle, LogShape, OnlySourceDepleted hold on Batt.tla. Recorded runs (any source as battery, 0/2/3 phases, numeric and scripted battery models, several cutoffs) must follow the "
-                     "machine: probe, then solve/deplete pairs exactly while the battery is alive; the source carries the battery's present voltage and impedance during each solve; each depletion gets the "
-                     "duration of the cycling phase (or cap0*3.6/i) and the battery row's Iout of a reference solve on a deep copy; the log is the initial state plus every alive state with increasing time.",
-                note="the reference solve uses the loop's own tolerances (vtol 1e-5, itol 1e-6)", design="DESIGN.md 7 (C18)"),
+                     "machine: probe, then one depletion per step exactly while the battery is alive (the solver calls in between are internal steps: where observed, the source carries the battery's "
+                     "present voltage and impedance and the phase is the step's); each depletion gets the duration of the cycling phase (or cap0*3.6/i) and the battery's steady-state current - the "
+                     "battery row's Iout of a reference solve, made by the harness on a system rebuilt from the projection with the battery at the state its model returned last; the log is the initial "
+                     "state plus every alive state with increasing time. Battery models: constant, sagging, rising impedance, flat voltage with rising impedance, scripted.",
+                note="the reference current is compared in the solver class (20 units of 1e-8 + 1e-5 |i|): any converged answer is a steady-state current", design="DESIGN.md 7 (C18)"),
     "C20": dict(technique="TLC enumeration of an argument lattice with the algebraic theorems of the formulas as invariants (MCUtils.tla) + validation of the evaluated functions (Utils.tla)",
                 text="MCUtils.tla states the formulas over an integer lattice and TLC checks the listed algebraic properties as theorems of the formula; every lattice tuple (with positive jitter) and every "
                      "metamorphic partner is evaluated by the real functions and held, cross-multiplied over exact decimals, to the closed forms and partner relations.",
